@@ -20,7 +20,7 @@ META = dict(
                "modelled — their clauses are only checked per run. Array lemmas that are not EUF-valid are decided by z3/cvc5 "
                "(untrusted) and counted as unverified-array-lemma. Combination: a clause is accepted if it is valid in LA "
                "(uninterpreted terms abstracted to variables) or in EUF (arithmetic operators read as uninterpreted); "
-               "Boolean atoms are read two-valued. Root-level deductions are seen through their reason clauses only.",
+               "Boolean atoms are read two-valued. Root-level deductions are checked through the reason clause the hook requests for them.",
     design_ref="DESIGN.md §7 C11, §4.3, design/C11.md",
     trusted_base=["Coq 8.16.1 kernel", "extraction: ExtrOcamlBasic, ExtrOcamlString only",
                   "ocaml/th_driver.ml + ocaml/bits.ml", "lib/thtrace.py, lib/thcheck.py: parsing of printed literals, "
@@ -97,7 +97,7 @@ def run(ctx):
     drv = TC.get_driver(ctx)
     if drv is None:
         return
-    n = 336 if ctx.quick else 3600
+    n = 336 if ctx.quick else 2400
     cap = 250 if ctx.quick else 4000
     scripts = TC.corpus_scripts("C11")
     for i in range(n):
